@@ -229,7 +229,7 @@ static int apply(ezc3d::c3d*& c, unsigned op) {
 }
 
 static ezc3d::c3d* start_state(int s) {
-  if (s >= 3 && s <= 6) return new ezc3d::c3d("in.c3d");
+  if ((s >= 3 && s <= 6) || s == 8 || s == 9) return new ezc3d::c3d("in.c3d");
   ezc3d::c3d* c = new ezc3d::c3d();
   if (s >= 1 && s != 7) {
     set_rate(*c, "POINT", 100.f); set_rate(*c, "ANALOG", 200.f);
